@@ -148,7 +148,7 @@ PROPS = {
     "C02": dict(
         facts=True,
         families=[dict(name="tree", args=["-specs", "1,12"]), dict(name="hist", args=["-specs", "1,12"]),
-                  dict(name="pipe", args=["-specs", "1,12"])],
+                  dict(name="pipe", args=["-specs", "1,12"]), dict(name="fault", args=["-specs", "48"])],
         level_text="Theorems C02_history / C02_step / C02_commit / C02_initial: for every history of commands of the "
                    "whole-program model from any state with a well-formed cache (in particular the empty one), every "
                    "object is keyed by the hash of its bytes with mode 0444 and no object ever changes or disappears. "
@@ -253,5 +253,20 @@ PROPS = {
                    "on the binary and repaired. no_slash: file checksums contain no '/'.",
         assumptions=["rclone copies exactly the listed existing files and never overwrites (transfer contract)",
                      "H collision-free on the strings involved"],
+    ),
+    "C20": dict(
+        families=[dict(name="oldschema")],
+        level_text="Theorems C20_decode_equal (old and current encodings decode to the same manifest), "
+                   "C20_rewrite_simulates (rewriting ANY selection of a tree's manifests in the old schema, under their "
+                   "own digests with parents re-pointed, gives a cache simulated by the original), C20_checkout_equal, "
+                   "C20_status_equal, C20_up_to_date_equal, C20_push_equal, C20_commit_on_top (the operations agree "
+                   "across simulated caches). Tied to the code by committing trees (depth <= 3), rewriting the "
+                   "manifests of a subset of (sub)directories (all / root only / random / all but root) in the old schema "
+                   "with Go's own encoder, re-pointing parents and the stage file, then status, checkout (both "
+                   "strategies), status, edit + commit on top, status - compared with the model and the property's "
+                   "executable statements in Coq.",
+        level_note="Premises found necessary by counterexamples: keys shorter than 3 chars absent (cache_ok + H_has); for "
+                   "commit on top no garbage-collected (dangling) directory manifests. Fetch walks the graph of gather.",
+        assumptions=["old manifests have all five fields present (as old dud wrote them)"],
     ),
 }
